@@ -589,6 +589,10 @@ func checkExecvedFlag(c *Check, handle, handleTrap *ssa.Function) {
 	checkCombineJoin(c)
 
 	// ---------- 9: the decision is made from the state of this stop only ----------
+	// the names the verdicts are computed from are read whole, and the requests that enforce them come from the
+	// thread the kernel accepts them from
+	importObs(c, "C02", "C02.11/reader-fills-buffer", "10/name-read-whole", nil)
+	importObs(c, "C17", "C17.3/thread-affinity", "11/tracer-thread", nil)
 	checkNoSharedState(c, "9/no-shared-state", func(path string) bool {
 		return strings.HasSuffix(path, "/ptracer") || strings.HasSuffix(path, "/runner/ptrace") || strings.HasSuffix(path, "/runner/ptrace/filehandler")
 	}, 2)
